@@ -341,7 +341,7 @@ def run(ctx):
         by_group.setdefault(c["cfg"]["group"], []).append(c)
     chosen = []
     for g, items in sorted(by_group.items()):
-        stride = {"sweep": 40, "onefactor": 3}.get(g, 1) if ctx.quick() else 1
+        stride = (len(items) + 39) // 40 if ctx.quick() else 1     # quick: at most ~40 per group, all of a small group
         chosen += items[ctx.seed % stride::stride]
     ctx.log("cover: %d of %d configurations in %d groups" % (len(chosen), len(cover), len(by_group)))
     b01 = ctx.build("c01")
